@@ -78,6 +78,12 @@ func GenTasks(t *rapid.T, cfg *Cfg, cyclic bool, tag string) map[string]definiti
 		n = rapid.IntRange(cfg.MinTasks, maxT).Draw(t, "nTasksMin")
 		names = rapid.Permutation(taskNamePool).Draw(t, "taskNames2")[:n]
 	}
+	// In a sixth of the graphs with two or more tasks, two names differ only in case (Deploy / deploy): they are
+	// two tasks like any others, with a place of their own in every order.
+	if n >= 2 && rapid.IntRange(0, 5).Draw(t, "namesDifferingInCase") == 0 {
+		names = append([]string(nil), names...)
+		names[1] = strings.ToUpper(names[0])
+	}
 	shapes := []string{"random", "random", "chain", "diamond", "fan", "independent"}
 	if len(cfg.Shapes) > 0 {
 		shapes = cfg.Shapes
